@@ -2,6 +2,7 @@ package label
 
 import (
 	"fmt"
+	"slices"
 	"sort"
 	"strings"
 )
@@ -104,6 +105,7 @@ func (t TargetLabel) IsTest() bool {
 	return strings.HasSuffix(t.Name, "test")
 }
 
+// PrintSorted prints the given labels in sorted order, each label once.
 func PrintSorted(labels []TargetLabel) {
 	var result []string
 	for _, label := range labels {
@@ -111,6 +113,9 @@ func PrintSorted(labels []TargetLabel) {
 	}
 
 	sort.Strings(result)
+	// A label may be passed more than once, e.g. the direct dependencies of a target
+	// that lists the same dependency twice. Print it only once.
+	result = slices.Compact(result)
 	for _, s := range result {
 		fmt.Println(s)
 	}
